@@ -1,5 +1,6 @@
 import TsVerif.C01.Judge
 import TsVerif.C01.LR
+import TsVerif.C01.GateLoop
 /-!
 # C01 — the LR machine on the REAL tables: whole-document validation and reuse certificates
 
@@ -267,6 +268,90 @@ def relexCheck (oldEdited scratch : Tree) (diffs : List (Nat × Nat)) (oldEnd : 
       if same then st := { st with equal := st.equal + 1 }
       else st := { st with bad := st.bad <|> some s!"unmarked old token of symbol {d.symbol} at offset {o} (size {d.size.bytes}, lookahead {d.lookahead}) is lexed differently from scratch in the same parse state" }
   return st
+
+/-! ### The gate-driven loop (`LR.gloop`) on real trees
+
+For token-preserving re-parses (the old and the new tree have the same number of token leaves with
+the same symbols — same-kind replacements, whitespace edits) the edited old dump is turned into an
+`LR.OTree` (marks = `has_changes`, states = `parse_state`, leaf tokens = the NEW tree's tokens by
+index) and `LR.gloop` is run on the real table: it must accept with the real from-scratch tree.
+Reported: how many inner nodes the model loop pushed whole. -/
+
+mutual
+  def toOTree (tc : Nat) (toks : Array Tok) (t : Tree) (idx : Nat) : LR.OTree × Nat :=
+    match t with
+    | .mk d [] =>
+      if d.symbol < tc then (.leaf d.hasChanges (toks[idx]?.getD (tokOf d)), idx + 1)
+      else (.node d.hasChanges d.parseState d.symbol [], idx)
+    | .mk d (k :: ks) =>
+      let (kids, idx') := toOTreeL tc toks (k :: ks) idx
+      -- a NON-TERMINAL EXTRA (comment node) would have to be pushed as an extra entry, which `reuseStep`
+      -- does not model: the loop model descends into it (re-shifts its tokens) instead
+      (.node (d.hasChanges || d.extra) d.parseState d.symbol kids, idx')
+  def toOTreeL (tc : Nat) (toks : Array Tok) (ks : List Tree) (idx : Nat) : List LR.OTree × Nat :=
+    match ks with
+    | [] => ([], idx)
+    | k :: rest =>
+      let (o, i1) := toOTree tc toks k idx
+      let (os, i2) := toOTreeL tc toks rest i1
+      (o :: os, i2)
+end
+
+/-- Run the gate loop; count reuse moves (stack grows by a node entry while the frontier shrinks). -/
+def gloopRun (L : LRData) (start : Nat) (front : List LR.OTree) (fuel : Nat) : LR.Stack × List LR.OTree × Nat := Id.run do
+  let mut st : LR.Stack := []
+  let mut fr := front
+  let mut reused := 0
+  for _ in [0:fuel] do
+    match fr with
+    | .node false s _ (_ :: _) :: _ =>
+      -- will this iteration push the candidate whole?
+      match LR.gstep L.table start st fr with
+      | some (st', fr') =>
+        if fr'.length + 1 == fr.length && st'.length == st.length + 1 && s == LR.top start st then reused := reused + 1
+        st := st'; fr := fr'
+      | none => return (st, fr, reused)
+    | _ =>
+      match LR.gstep L.table start st fr with
+      | some (st', fr') => st := st'; fr := fr'
+      | none => return (st, fr, reused)
+  return (st, fr, reused)
+
+inductive LoopResult where
+  | ok (reusedInner : Nat)
+  | skipped
+  | mismatch (msg : String)
+
+/-- Is the table deterministic on everything this document touches?  (checked lazily: a GLR entry
+makes `LR.step` see `.error`, the loop then stops early and the case is skipped) -/
+def gloopValidate (L : LRData) (start : Nat) (oldEdited new scratch : Tree) : LoopResult :=
+  let newToks := (leavesOf L.tokenCount new #[]).map (·.1)
+  let oldToks := (leavesOf L.tokenCount oldEdited #[]).map (·.1)
+  if newToks.size != oldToks.size || (newToks.zip oldToks).any (fun p => p.1.sym != p.2.sym) then .skipped
+  else
+    match oldEdited with
+    | .mk _ rootKids =>
+      let (front, _) := toOTreeL L.tokenCount newToks rootKids 0
+      let (st, fr, reused) := gloopRun L start front (16 * (oldEdited.size + 8))
+      -- the loop must stop in front of the EOF token with the machine accepting
+      match LR.yieldL fr with
+      | [x] =>
+        if L.table.action (LR.top start st) x.sym != .accept then
+          if L.ambiguous (LR.top start st) x.sym then .skipped else .mismatch s!"gate loop stopped in state {LR.top start st} without accepting"
+        else
+          match (st.filter (fun e => !e.extra)) with
+          | [r] =>
+            match r.tree with
+            | .node rs rk => Id.run do
+              let mut got : Array (Nat × Nat) := #[(0, rs)]
+              for e in st.reverse do
+                if e.extra then got := shapeP L.visible e.tree 1 false got
+                else got := shapePL L.visible rk 1 got
+              if got == shapeT scratch 0 true #[] then return .ok reused
+              else return .mismatch "gate loop accepts with a tree different from the real from-scratch tree"
+            | .leaf _ => .mismatch "root is a leaf"
+          | _ => .skipped
+      | _ => .skipped
 
 /-- A reused subtree of the new tree together with its position in the new tree's token sequence. -/
 structure Reused where
